@@ -43,9 +43,9 @@ T = {
  "C17-a": ("a service dropped by a reload while clients still await it: it is still queried for new clients", "C17.xq_check.t00..t33 (same jobs as C06.xq_check: a query goes only to a configured, due service)", "first trial missed (jobs were filed under C06 only); filed under C17 too"),
  "C17-b": ("a rule with xreply_ok naming a service that is not (yet) in the service table when the rule section's hook runs: the rule is left out", "C17.class_conf_changed.*: the compiled vector is exactly the section's rule objects", "first trial missed (rule compilation was not under contract); harness added"),
  "C18-a": ("a severity list such as '<=warning,debug': the operator is not reset between items", "C18.log_sevset.quick.part1", "caught"),
- "C18-b": ("an in-place edit of a destination below the logs section: the per-entry hook was removed, so nothing rescans", None, "not caught: merge-side hook delivery / log_rescan_conf are not under contract (same root as F13)"),
- "C20-a": ("a dependency cycle between modules is accepted", None, "not caught: C20 is not claimed (symbolic execution of module.c does not finish, DESIGN 10.6)"),
- "C20-b": ("unload order ignores dependants", None, "not caught: C20 is not claimed"),
+ "C18-b": ('an in-place edit of a destination below the logs section: the per-entry hook was removed, so nothing rescans', 'C18.log_rescan.case0..4: every entry of the section carries a change hook; an in-place edit run through it re-routes', 'first trial missed (log_rescan_conf was not under contract); harness added, then caught by all 5 jobs'),
+ "C20-a": ('a dependency cycle between modules is accepted (the loop test of the post-init walk no longer aborts)', 'C20.run.M3.g*.list0 for every cyclic graph: a genuine dependency cycle makes start-up fail', 'caught (seed re-based onto the F14 fix, see REBASED.txt; C20 was not claimed at the first trial)'),
+ "C20-b": ('four modules: a chain x -> y -> z plus an unrelated module that sorts after x: the unload rounds stop sweeping early and the rest is removed in table order', 'C20.run.M4.chain_plus_one.2103: every module is unloaded at shutdown / destructor order', 'first trial missed (3-module graphs only); 4-module families added, then caught'),
 }
 for sid, (needs, det, note) in sorted(T.items()):
     d = os.path.join(ROOT, "seeded", sid)
